@@ -131,6 +131,26 @@ let run_handle parts =
     Printf.sprintf "st=ok n=1 resp=%s upq=%s || spec=%s" (hex_of_bytes bytes) upq spec
   | _ -> "st=no-response n=0 resp=- upq=- || spec=ok"   (* undecodable query: dropped (C01) *)
 
+(* dohget: <id> cfg= l=<http-get|fasthttp-get|https-get|..> client= raw=<hex of the RAW value of the dns parameter> up=..
+   the value goes through the model of the GET parameter (Net/DohGet.v: percent decoding on fasthttp, base64url with
+   skipped line breaks, the 65535 limit); a rejected parameter is a 400, an accepted one is handled as its octets *)
+let run_dohget parts =
+  let f = fields parts in
+  let l = fld f "l" in
+  let base = List.hd (String.split_on_char '-' l) in
+  let k = if String.length base >= 8 && String.sub base 0 8 = "fasthttp" then DohFastHttp else DohNetHttp in
+  match doh_get k (bytes_of_hex (fld f "raw")) with
+  | DohReject -> "st=http-400 n=0 resp=- upq=- || spec=ok"
+  | DohMsg m ->
+    (match unpack_msg m with
+     | Ok _ ->
+       let keep p = not (String.length p > 2 && String.sub p 0 2 = "q=") in
+       run_handle (List.map (fun p -> if String.length p > 4 && String.sub p 0 4 = "raw=" then "q=" ^ hex_of_bytes m else p)
+                     (List.filter keep parts))
+     | _ -> "st=http-400 n=0 resp=- upq=- || spec=ok")
+
+let () = register "dohget" run_dohget
+
 (* handlespec: the same oracles evaluated on what the IMPLEMENTATION produced (fields resp=, upq= appended) *)
 let run_handlespec parts =
   let f = fields parts in
